@@ -34,7 +34,14 @@ def make_replay(prop, v, tier):
         rec['replay_search_error'] = repr(e)
     if v.get('counterexample') and not reproduced:
         rec['input'] = v['counterexample']
-        rec['observed'] = 'kani concrete playback values (not re-executed)'
+        rp_ = v.get('replayed') or {}
+        if rp_.get('failed_on_real_code'):
+            # Kani's counterexample was executed natively on the real code in the scratch copy and the test failed
+            reproduced = True
+            rec['observed'] = rp_.get('observed') or 'playback test failed on the real code'
+            rec['replay_cmd'] = rp_.get('cmd')
+        else:
+            rec['observed'] = 'kani concrete playback values (not re-executed: the harness stands on stubs a plain test cannot use)' if not rp_.get('ran') else 'playback test did not fail natively'
     with open(path, 'w') as f:
         json.dump(rec, f, indent=1)
     return path, reproduced
